@@ -62,7 +62,7 @@ def do_op(storage: Any, op: tuple, ids: dict) -> Any:
     if n == "id_from_number":
         return storage.get_trial_id_from_study_id_trial_number(g(op[1]), op[2])
     if n == "get_all_studies":
-        return tuple(sorted((fs._study_id, fs.study_name) for fs in storage.get_all_studies()))
+        return tuple(sorted((fs._study_id, fs.study_name, canon_value(fs.user_attrs)) for fs in storage.get_all_studies()))
     raise ValueError(op)
 
 
